@@ -318,7 +318,7 @@ def _sched_worker(args):
 
 # ---------------------------------------------------------------------------------------- histories
 
-EVENTS = ["F", "U", "Ud", "Uf", "R0", "Rl", "H0", "Hl", "D0", "Dl"]
+EVENTS = ["F", "U", "Ud", "Uf", "R0", "Rl", "H0", "Hl", "D0", "Dl", "X"]
 
 
 def _user_hooks(lsp, marker="file:///USER-HOOK"):
@@ -361,6 +361,28 @@ def _history_child(hist, battery_spec):
             elif ev == "Uf":
                 convs.append(converters.get_converter(cattrs.Converter(forbid_extra_keys=True)))
                 kinds.append("forbid")
+            elif ev == "X":
+                # a creation that is interrupted (Ctrl-C, RecursionError ...) while forward references are being resolved:
+                # the 5th call of attrs.resolve_types raises; whatever the package did so far must not poison later creations
+                import attrs as _attrs
+                orig_rt = _attrs.resolve_types
+                calls = [0]
+
+                class _Interrupt(BaseException):
+                    pass
+
+                def faulty(*a, **k):
+                    calls[0] += 1
+                    if calls[0] == 5:
+                        raise _Interrupt()
+                    return orig_rt(*a, **k)
+                _attrs.resolve_types = faulty
+                try:
+                    converters.get_converter()
+                except _Interrupt:
+                    pass
+                finally:
+                    _attrs.resolve_types = orig_rt
             elif ev in ("R0", "Rl", "H0", "Hl", "D0", "Dl"):
                 al = alive()
                 if not al:
@@ -459,6 +481,9 @@ def enabled_histories(maxlen):
         for ev in EVENTS:
             if ev in ("F", "U", "Ud", "Uf"):
                 rec(h + [ev], nconv + 1)
+            elif ev == "X":
+                if "X" not in h:
+                    rec(h + [ev], nconv)
             elif nconv >= 1:
                 if ev in ("Rl", "Hl", "Dl") and nconv == 1:
                     continue       # same as R0 / H0 / D0 when there is one converter
@@ -577,7 +602,7 @@ def run(ctx):
                 "package modules (functions audited as converter-local run atomically), every schedule with at most the stated number of "
                 "preemptions (iterative context bounding); histories: every enabled sequence over {F fresh, U user converter, Ud user converter "
                 "without detailed validation, Uf user converter with forbid_extra_keys, R re-register on first/last, H user structure hook for Location + "
-                "unstructure hook for Range on first/last, D drop first/last and collect} up to the stated length, "
+                "unstructure hook for Range on first/last, D drop first/last and collect, X a creation interrupted by an exception raised from the 5th attrs.resolve_types call} up to the stated length, "
                 "each in a freshly forked process, plus F^100 and three drop-and-recreate histories of 50-60 events; after every event every converter is compared on the battery with the reference "
                 "(user-hooked converters with the hooked reference, incl. below union hooks)",
         "schedules": sched_cov, "histories": hist_stats, "converter_local_audit": audit,
